@@ -30,7 +30,7 @@ META = dict(
     rule="one evaluation = one realised molecule / reaction; non-trivial = at least one hydrogen moved / at least one bond "
          "or charge changes",
 )
-WALL = dict(quick=170, thorough=1500)
+WALL = dict(quick=240, thorough=1500)
 MIN_PATHS = dict(quick=300, thorough=3000)
 MOLKEYS = ["element", "hcount", "charge", "aromatic"]
 
